@@ -1169,6 +1169,9 @@ def check_sum_once(ctx, rule, P, fn, list_param, out_adt, cov):
                 break
         if t.op == "call" and B.cname(t) in ("Add::add",) and len(t.a[1]) == 2:
             return leaves(t.a[1][0]) + leaves(t.a[1][1])
+        if t.op == "mutcall" and B.cname(t) == "AddAssign::add_assign" and t.a[1] == 0 and len(t.a[2]) == 2:
+            # `g += x` after the loop: the sum so far plus x
+            return leaves(t.a[2][0]) + leaves(t.a[2][1])
         if t.op == "phi":
             return [("other", t)]
         if t.op == "loop":
